@@ -129,6 +129,8 @@ HasType(v, t) ==
   CASE t = "Int" -> IsInt(v)
     [] t = "String" -> IsStr(v)
     [] t = "Bool" -> IsBool(v)
+    [] t = "List<Int>" -> IsList(v) /\ \A i \in 1..Len(v.v) : IsInt(v.v[i])
+    [] t = "List<String>" -> IsList(v) /\ \A i \in 1..Len(v.v) : IsStr(v.v[i])
     [] OTHER -> TRUE
 
 BindParams(ps, args, i, blk) ==
